@@ -148,6 +148,51 @@ PROBES = ["# pyrefact: skip_file", "#pyrefact: skip_file", "# pyrefact:skip_file
           "#  pyrefact  :  skip_file", "#\tpyrefact:\tskip_file", "# pyrefact : skip_file"]
 
 
+def file_probes(line_pattern: Optional[str]) -> List[Tuple[str, bool]]:
+    """(file text, does it carry a skip_file comment).  The spelling variants count as skip_file comments when the
+    per-line pattern of has_ignore_comment takes them for one (the two grammars must agree); the documented spelling always."""
+    def is_skip(comment: str) -> bool:
+        if comment == "# pyrefact: skip_file":
+            return True
+        if line_pattern is None:
+            return False
+        m = re.search(line_pattern, comment)
+        return bool(m) and "skip_file" in m.group(0)
+    out = [("x = 1\n", False), ("x = 1  # pyrefact: ignore\n", False), ("", False), ("x = 'skip_file'\n", False)]
+    for c in PROBES:
+        lab = is_skip(c)
+        out += [(c + "\nx = 1\n", lab), ("x = 1\n" + c + "\ny = 2\n", lab), ("x = 1  " + c, lab),
+                ("x = 1  # pyrefact: ignore\ny = 2  " + c + "\n", lab), (c + "\nx = 1  # pyrefact: ignore\n", lab),
+                ("x = 1  # pyrefact: ignore  " + c + "\n", lab), ("def f():\n    return 1  " + c + "\n", lab)]
+    return out
+
+
+def find_skip_test(prog: Program, fn: Func):
+    """The statement of format_code that decides the file opt-out, found by what it COMPUTES: an `if` whose branch hands
+    the text parameter back and whose test - interpreted by sa/strexpr.py on probe files, helpers included - is true for a
+    file with the documented comment and false for a file without any.  -> (if statement, {probe: verdict}) or None;
+    falls back to the syntactic recogniser (regex search on the parameter) when the test cannot be interpreted."""
+    from .. import strexpr
+    p = fn.posparams[0]
+    _, line = _patterns(prog, only_line=True)
+    probes = file_probes(line[0] if line else None)
+    for s_ in walk_body(fn.node.body):
+        if not (isinstance(s_, ast.If) and s_.body and isinstance(s_.body[-1], ast.Return) and isinstance(s_.body[-1].value, ast.Name)):
+            continue
+        verdicts = {}
+        try:
+            with strexpr.context(prog, fn):
+                for text, _lab in probes:
+                    verdicts[text] = bool(strexpr.ev(s_.test, {p: text}))
+        except strexpr.Unsupported:
+            continue
+        except Exception:          # the interpreted test raised on a probe: not a total test of the text
+            continue
+        if verdicts["# pyrefact: skip_file\nx = 1\n"] and not verdicts["x = 1\n"]:
+            return s_, verdicts, probes
+    return None
+
+
 # ------------------------------------------------------------------------------------------------ the check
 def check(prog: Program, tier: str) -> Result:
     res = Result(
@@ -193,28 +238,53 @@ def _skip_hook(prog: Program):
     return hook
 
 
+class SkipPA(PathAnalysis):
+    """The identified skip test is one atom skipfile(<text>), however it is written."""
+    skip_node: Optional[ast.AST] = None
+    text_name: str = ""
+
+    def _formula(self, t, w):
+        if self.skip_node is not None and t is self.skip_node:
+            return Lit(f"skipfile({self.term(ast.Name(id=self.text_name, ctx=ast.Load()), w)})")
+        return super()._formula(t, w)
+
+
 def _r20_1(prog: Program, res: Result) -> None:
     fn = prog.func("main", "format_code")
     p = fn.posparams[0]
-    pa = PathAnalysis(prog, fn, term_hook=_skip_hook(prog))
-    body = [s for s in fn.node.body if not (isinstance(s, ast.Expr) and isinstance(s.value, ast.Constant))]
     goal_atom = f"skipfile({p}#0)"
-    found_test = None
-    for s in walk_body(fn.node.body):
-        if isinstance(s, ast.If):
-            for sub in ast.walk(s.test):
-                st = skip_test_of(prog, sub, fn)
-                if st:
-                    found_test = (s, st)
-                    break
-        if found_test:
-            break
-    if not found_test:
-        res.bad("R20.1", fn.loc(), fn.fq, "skip-file test", "format_code has no skip_file test on its input")
-        return
-    test_stmt, (pattern, tested, _) = found_test
-    res.decide(isinstance(tested, ast.Name) and tested.id == p, "R20.1", fn.loc(test_stmt), fn.fq, short(test_stmt.test),
-               "tests the text parameter" if isinstance(tested, ast.Name) and tested.id == p else "the skip test does not examine the text parameter")
+    sem = find_skip_test(prog, fn)
+    if sem is not None:
+        test_stmt = sem[0]
+        SkipPA.skip_node, SkipPA.text_name = test_stmt.test, p
+        try:
+            pa = SkipPA(prog, fn)
+        finally:
+            SkipPA.skip_node = None
+        own = {n.id for n in ast.walk(test_stmt.test) if isinstance(n, ast.Name) and isinstance(n.ctx, ast.Store)}   # comprehension variables
+        used = ({n.id for n in ast.walk(test_stmt.test) if isinstance(n, ast.Name)} - own) & (
+            set(fn.all_params) | {n.id for n in ast.walk(fn.node) if isinstance(n, ast.Name) and isinstance(n.ctx, ast.Store)})
+        ok = used == {p}
+        res.decide(ok, "R20.1", fn.loc(test_stmt), fn.fq, short(test_stmt.test),
+                   "tests the text parameter (test identified by interpreting it on probe files)" if ok else f"the skip test also depends on {sorted(used - {p})}")
+    else:
+        pa = PathAnalysis(prog, fn, term_hook=_skip_hook(prog))
+        found_test = None
+        for s in walk_body(fn.node.body):
+            if isinstance(s, ast.If):
+                for sub in ast.walk(s.test):
+                    st = skip_test_of(prog, sub, fn)
+                    if st:
+                        found_test = (s, st)
+                        break
+            if found_test:
+                break
+        if not found_test:
+            res.bad("R20.1", fn.loc(), fn.fq, "skip-file test", "format_code has no skip_file test on its input")
+            return
+        test_stmt, (pattern, tested, _) = found_test
+        res.decide(isinstance(tested, ast.Name) and tested.id == p, "R20.1", fn.loc(test_stmt), fn.fq, short(test_stmt.test),
+                   "tests the text parameter" if isinstance(tested, ast.Name) and tested.id == p else "the skip test does not examine the text parameter")
     # the skip branch returns the parameter itself, unmodified
     for w in pa.at_stmt.get(id(test_stmt), []):
         if w.token(p) != f"{p}#0":
@@ -259,10 +329,10 @@ def _header_exprs(s: ast.stmt):
     return []
 
 
-def _patterns(prog: Program):
+def _patterns(prog: Program, only_line: bool = False):
     fc = prog.func("main", "format_code")
     whole = None
-    for s in walk_body(fc.node.body):
+    for s in ([] if only_line else walk_body(fc.node.body)):
         if isinstance(s, ast.If):
             for sub in ast.walk(s.test):
                 st = skip_test_of(prog, sub, fc)
@@ -283,13 +353,37 @@ def _patterns(prog: Program):
                 p = regex_literal(prog, n.args[0], hic)
                 if p:
                     line = (p, hic.loc(n))
+    if line is None:
+        # through a helper that searches its argument: get_directive(line)
+        for c in prog.calls_in(hic):
+            r_ = prog.resolve_call(c.func, hic.mod, hic)
+            if r_ and r_[0] == "fn":
+                for x in ast.walk(r_[1].node):
+                    rs = regex_search_call(prog, x, r_[1])
+                    if rs and line is None:
+                        line = (rs[0], r_[1].loc(x))
     return whole, line
 
 
 def _r20_2(prog: Program, res: Result) -> None:
+    fc = prog.func("main", "format_code")
+    sem = find_skip_test(prog, fc)
     whole, line = _patterns(prog)
-    if whole is None or line is None:
+    if sem is None and (whole is None or line is None):
         res.undecided("R20.2", "pyrefact/main.py:0", "main.format_code", "skip-file grammar", "could not locate both patterns")
+        return
+    if sem is not None:
+        # the test as it is COMPUTED (helpers interpreted): every probe file with a skip_file comment - wherever the comment
+        # stands, whatever other directive precedes it - must be recognised
+        test_stmt, verdicts, probes = sem
+        missed = [t for t, lab in probes if lab and not verdicts[t]]
+        extra = [t for t, lab in probes if not lab and verdicts[t]]
+        res.decide(not missed, "R20.2", fc.loc(test_stmt), fc.fq, "skip-file test on probe files",
+                   f"{sum(1 for _t, lab in probes if lab)} probe files with a skip_file comment (7 spellings x 7 placements, alone and next to an ignore comment) are all recognised"
+                   + (f"; also skips {len(extra)} file(s) without one (harmless: skips more)" if extra else "") if not missed else
+                   f"the file {missed[0]!r} carries a skip_file comment (has_ignore_comment takes it for one) but the whole-file test answers no: the file is formatted"
+                   f" ({len(missed)} of {len(probes)} probe files)")
+    if whole is None or line is None:
         return
     a = restrict_to(normalise_regex(whole[0]), "skip_file")
     b = restrict_to(normalise_regex(line[0]), "skip_file")
@@ -341,14 +435,33 @@ def _r20_5(prog: Program, res: Result) -> None:
                "iterates every line of the text with its terminator and advances the offset by len(line)" if keepends and advances else
                "line offsets drift: the loop must iterate source.splitlines(keepends=True) and advance by len(line)")
     pa = PathAnalysis(prog, fn)
+    # helpers that answer whether their argument matches a pattern (one level): get_directive(line) is not None
+    searching_helpers = set()
+    for c in prog.calls_in(fn):
+        r_ = prog.resolve_call(c.func, fn.mod, fn)
+        if r_ and r_[0] == "fn" and r_[1].posparams:
+            h = r_[1]
+            if any(rs is not None and isinstance(rs[1], ast.Name) and rs[1].id == h.posparams[0]
+                   for rs in (regex_search_call(prog, x, h) for x in ast.walk(h.node))):
+                searching_helpers.add(h.name)
     trues = [r for r in walk_own(fn.node) if isinstance(r, ast.Return) and not (isinstance(r.value, ast.Constant) and not r.value.value)]
     for r in trues:
         worlds = pa.worlds_at(r)
         ok = bool(worlds)
         for w in worlds:
             has_overlap = any(f[0] == "lit" and f[2] and ((" & " in f[1]) or ".overlaps(" in f[1]) and w.token(rng) in f[1] for f in w.facts)
-            has_match = any(f[0] == "lit" and f[2] and (".search(" in f[1] or "re#0." in f[1] or ".match(" in f[1] or ".findall(" in f[1])
-                            and isinstance(loop.target, ast.Name) and w.token(loop.target.id) in f[1] for f in w.facts)
+            def is_match_fact(f) -> bool:
+                if f[0] != "lit" or not isinstance(loop.target, ast.Name) or w.token(loop.target.id) not in f[1]:
+                    return False
+                txt = f[1]
+                direct = ".search(" in txt or "re#0." in txt or ".match(" in txt or ".findall(" in txt
+                via_helper = any(re.search(r"\b" + re.escape(h) + r"(#\w+)?\(", txt) for h in searching_helpers)
+                if not (direct or via_helper):
+                    return False
+                # `<match> is None` is the negated test
+                want = not (txt.startswith("is(") and txt.rstrip(")").endswith("None"))
+                return f[2] == want
+            has_match = any(is_match_fact(f) for f in w.facts)
             ok = ok and has_overlap and has_match
         res.decide(ok, "R20.5", fn.loc(r), fn.fq, norm(r),
                    "True only for a line that overlaps the range and matches the pattern" if ok else
@@ -591,6 +704,12 @@ def _whitespace_only(prog, fn, pa, node, bounds: set) -> bool:
 from ..selftest import Variant  # noqa: E402
 
 VARIANTS = [
+    Variant("directive-lookup-in-a-helper", "SILENT", "core", 'def has_ignore_comment(source: str, rng: Range) -> bool:\n    pattern = re.compile(r"#\\s*pyrefact\\s*:\\s*(skip_file|ignore)")\n', '_DIRECTIVE = re.compile(r"#\\s*pyrefact\\s*:\\s*(skip_file|ignore)")\n\n\ndef get_directive(text: str):\n    found = _DIRECTIVE.search(text)\n    if found is None:\n        return None\n\n    return found.group(1)\n\n\ndef has_ignore_comment(source: str, rng: Range) -> bool:\n', extra=[("core", '        if rng & Range(line_start, line_end) and pattern.search(line):', '        if rng & Range(line_start, line_end) and get_directive(line) is not None:')]),
+    Variant("skip-test-per-line-through-helper", "SILENT", "main", "    if re.search(r\"#\\s*pyrefact\\s*:\\s*skip_file\", source):",
+            "    if any(_is_skip_line(line) for line in source.splitlines()):",
+            extra=[("main", "def format_code(", "_SKIP = re.compile(r\"#\\s*pyrefact\\s*:\\s*skip_file\")\n\n\ndef _is_skip_line(line: str) -> bool:\n    found = _SKIP.search(line)\n    return found is not None\n\n\ndef format_code(")]),
+    Variant("skip-test-reads-first-directive-only", "FIRE", "core", 'def has_ignore_comment(source: str, rng: Range) -> bool:\n    pattern = re.compile(r"#\\s*pyrefact\\s*:\\s*(skip_file|ignore)")\n', '_DIRECTIVE = re.compile(r"#\\s*pyrefact\\s*:\\s*(skip_file|ignore)")\n\n\ndef get_directive(text: str):\n    found = _DIRECTIVE.search(text)\n    if found is None:\n        return None\n\n    return found.group(1)\n\n\ndef has_ignore_comment(source: str, rng: Range) -> bool:\n', "R20.2", extra=[("core", '        if rng & Range(line_start, line_end) and pattern.search(line):', '        if rng & Range(line_start, line_end) and get_directive(line) is not None:'),
+            ("main", "    if re.search(r\"#\\s*pyrefact\\s*:\\s*skip_file\", source):", "    if core.get_directive(source) == \"skip_file\":")]),
     Variant("expandtabs-before-skip-test", "FIRE", "main",
             "    if re.search(r\"#\\s*pyrefact\\s*:\\s*skip_file\", source):\n        return source\n\n    source = source.expandtabs(4)\n",
             "    source = source.expandtabs(4)\n    if re.search(r\"#\\s*pyrefact\\s*:\\s*skip_file\", source):\n        return source\n\n", "R20.1"),
